@@ -336,6 +336,9 @@ class StrDomain:
 
     def binop(self, op, a, b):
         if op in ('Eq', 'Ne'):
+            for x, y in ((a, b), (b, a)):
+                if x[0] == 'strlen' and y[0] == 'lit' and isinstance(y[1], int) and not isinstance(y[1], bool):
+                    return (op == 'Ne') if y[1] < minlen(parts(x[1])) else None      # the length is at least minlen
             if not (self._mine(a) or self._mine(b)):
                 return None
             r = self.eq(a, b)
@@ -353,9 +356,16 @@ class StrDomain:
         return None
 
     def _mine(self, t):
-        return isinstance(t, tuple) and bool(t) and (t[0] in ('sstr', 'first', 'strlen') or (t[0] == 'lit' and isinstance(t[1], str))
-                                                    or (t[0] in ('ctor',) and any(self._mine(x) for x in t[2]))
-                                                    or (t[0] == 'tuple' and any(self._mine(x) for x in t[1])))
+        """a value this domain compares: texts and their parts, and Option / tuple / enum values built from them and from literals"""
+        if not (isinstance(t, tuple) and t):
+            return False
+        if t[0] in ('sstr', 'first', 'strlen') or (t[0] == 'lit' and isinstance(t[1], str)):
+            return True
+        if t[0] == 'ctor' and t[2]:
+            return all(self._mine(x) or x[0] == 'lit' for x in t[2])
+        if t[0] == 'tuple' and t[1]:
+            return all(self._mine(x) or x[0] == 'lit' for x in t[1])
+        return False
 
     # ------------------------------------------------------------------ indexing / slicing
     def _range(self, b):
@@ -778,8 +788,8 @@ class StrDomain:
             return None
 
         # ---- percent-decoding: an opaque total-or-error function of its argument
-        if cal == 'percent_encoding::percent_decode_str' and len(args) == 1 and is_str(args[0]):
-            return val(('pct', args[0]))
+        if cal == 'percent_encoding::percent_decode_str' and len(args) == 1:
+            return val(('pct', args[0]))              # (of any text, also one the models could not evaluate: the decoder stays a function of it)
         if cal == 'percent_encoding::percent_decode' and len(args) == 1:
             a = args[0]
             if a[0] == 'asbytes':
@@ -788,7 +798,7 @@ class StrDomain:
                 return val(('pct', ('lit', a[1].decode())))
         if args and args[0][0] == 'pct' and name == 'decode_utf8' and len(args) == 1:
             x = args[0][1]
-            if x[0] == 'lit' and '%' not in x[1]:
+            if x[0] == 'lit' and isinstance(x[1], str) and '%' not in x[1]:
                 # nothing to decode: the bytes of a str are valid UTF-8, the result is Ok(the same text)
                 return val(('ctor', 'Ok', (x,)))
             return val(('utf8', x))
